@@ -72,17 +72,17 @@ type acOut struct {
 }
 
 type acInterp struct {
-	p        *Program
-	info     *types.Info
-	c        *rmCtx
-	w, req   types.Object // handler writer / request (nil in a helper: req is the helper's request param)
-	next     types.Object
-	fns      types.Object // the authenticator list
-	fn       types.Object // current loop element
-	problems []string
+	p         *Program
+	info      *types.Info
+	c         *rmCtx
+	w, req    types.Object // handler writer / request (nil in a helper: req is the helper's request param)
+	next      types.Object
+	fns       types.Object // the authenticator list
+	fn        types.Object // current loop element
+	problems  []string
 	undecided string
-	helpers  map[*types.Func]bool // validated helper summaries
-	depth    int
+	helpers   map[*types.Func]bool // validated helper summaries
+	depth     int
 }
 
 func (a *acInterp) und(format string, args ...any) {
